@@ -106,7 +106,9 @@ Finish(i) ==
     /\ inflight' = [y \in DOMAIN inflight \ {i} |-> inflight[y]]
     /\ UNCHANGED <<suite, filter>>
 
-Next == \E i \in Idx : Start(i) \/ Finish(i)
+StartSome  == \E i \in Idx : Start(i)
+FinishSome == \E i \in Idx : Finish(i)
+Next == StartSome \/ FinishSome
 
 AllDone == \A i \in Idx : Selected(suite[i], filter) => i \in DOMAIN results
 
